@@ -39,7 +39,7 @@ type aggregate struct {
 	Runs       int            `json:"runs"`
 	Nontrivial int            `json:"nontrivial"`
 	Steps      int64          `json:"steps"`
-	SimNS      int64          `json:"sim_ns"`
+	SimS       float64        `json:"sim_s"`
 	Stats      map[string]int `json:"stats"`
 	Classes    map[string]int `json:"classes"`
 	Strategies map[string]int `json:"strategies,omitempty"`
@@ -50,6 +50,7 @@ type aggregate struct {
 	Harness    int            `json:"harness"`
 	HarnessMsg string         `json:"harness_msg,omitempty"`
 	RaceNoise  int            `json:"race_noise"`
+	Pairs      []string       `json:"pairs,omitempty"`
 	WallMS     int64          `json:"wall_ms"`
 	Mode       string         `json:"mode"`
 	Race       bool           `json:"race"`
@@ -141,6 +142,7 @@ func runRange(t *testing.T, p *core.Prop, c *cmd, o *out, journal *os.File, race
 	t0 := time.Now()
 	agg := &aggregate{Kind: "aggregate", Stats: map[string]int{}, Classes: map[string]int{}, Mode: core.Mode, Race: kernel.RaceBuild, FirstIdx: c.From}
 	digests := map[uint64]struct{}{}
+	kernel.PairSink = map[string]struct{}{}
 	stride := c.Stride
 	if stride == 0 {
 		stride = 1
@@ -164,7 +166,7 @@ func runRange(t *testing.T, p *core.Prop, c *cmd, o *out, journal *os.File, race
 		agg.Runs++
 		agg.LastIdx = idx
 		agg.Steps += int64(res.Steps)
-		agg.SimNS += res.SimNS
+		agg.SimS += float64(res.SimNS) / 1e9
 		for k, v := range res.Stats {
 			agg.Stats[k] += v
 		}
@@ -216,6 +218,9 @@ func runRange(t *testing.T, p *core.Prop, c *cmd, o *out, journal *os.File, race
 		}
 		w.Flush()
 		df.Close()
+	}
+	for p := range kernel.PairSink {
+		agg.Pairs = append(agg.Pairs, p)
 	}
 	agg.RaceNoise = agg.Stats["harness.race_noise"]
 	agg.WallMS = time.Since(t0).Milliseconds()
